@@ -97,7 +97,7 @@ def do_case(ctx, inp):
 
 def gen_rule(rng, t, k):
     names = sorted(leaves_of(t))
-    kind = rng.choice(["Any", "All", "AtMost", "ccAny", "ccXor", "Imply"])
+    kind = rng.choice(["Any", "All", "AtMost", "ccAny", "ccXor", "Imply", "Slack"])
     lvs = leaves_of(t)
     bools = [x for x in names if lvs[x] == (0, 1)] or names
     grp = lambda n: [{"c": "str", "id": x} for x in rng.sample(bools, min(n, len(bools)))]
@@ -122,6 +122,14 @@ def gen_rule(rng, t, k):
         return r
     if kind in ("Any", "All"): r.update(c=kind, args=grp(rng.randint(1, 3)))
     elif kind == "AtMost": r.update(c="AtMost", v=1, args=grp(rng.randint(2, 3)))
+    elif kind == "Slack":
+        # a rule that cannot fail (a limit nobody can exceed, a threshold of nothing, a choice with an alternative that is
+        # always there): it restricts nothing, and is a rule of the configurator like any other (its id, its items)
+        g = grp(rng.randint(1, 3))
+        z = rng.random()
+        if z < 0.4: r.update(c="AtMost", v=len(g) + rng.randint(0, 1), args=g)
+        elif z < 0.7: r.update(c="AtLeast", v=0, sign=1, args=g)
+        else: r.update(c=rng.choice(["Any", "ccAny"]), args=g + [{"c": "var", "id": f"always{k}", "lo": 1, "hi": 1}])
     elif kind in ("ccAny", "ccXor"):
         args = grp(rng.randint(2, 3)); r.update(c=kind, args=args)
         if rng.random() < 0.7: r["default"] = [rng.choice(args)["id"]]
